@@ -372,6 +372,17 @@ def gen_constuse_design(rng):
   for nm_, dflt in (("o1", "0"), ("o2", "s.a"), ("o3", "s.a")):
     if not any(b.startswith(f"s.{nm_} ") for b in keep): keep.append(f"s.{nm_} @= {dflt}")
   L += ["      " + b for b in keep + stt]
+  if rng.random() < 0.4:
+    # a constant bitstruct with a LIST field, kept like K (global / closure / attribute), one element read with a signal index
+    n = 1 << iw
+    ev = [rng.getrandbits(4) for _ in range(n)]
+    decl = f"KL = CUL([{', '.join(f'Bits4({v_})' for v_ in ev)}], 3)"
+    at = L.index("class CUTop(Component):")
+    L[at:at] = ["@bitstruct", "class CUL:", f"  arr: [Bits4] * {n}", "  k: Bits4"] + ([decl] if how == "global" else [])
+    cons = L.index("  def construct(s):")
+    L[cons + 1:cons + 1] = ["    s.o7 = OutPort(4)"] + ([("    " + decl) if how == "closure" else ("    s." + decl)] if how != "global" else [])
+    L.append(f"      s.o7 @= {'s.KL' if how == 'attr' else 'KL'}.arr[s.i]")
+    how += "+listfield"
   return "\n".join(L) + "\n", how
 
 
